@@ -252,6 +252,7 @@ def transforms2d():
         F('trinterp2_T', [T3, P('E', (3, 3)), s], lambda T, E, s: t2.trinterp2(T, E, s), 'base.trinterp2(T0, T1, s)'),
         F('trinterp2_T_nostart', [P('E', (3, 3)), s], lambda E, s: t2.trinterp2(None, E, s), 'base.trinterp2(None, T1, s)'),
         F('trinterp2_R', [R2, P('E', (2, 2)), s], lambda m, E, s: t2.trinterp2(m, E, s), 'base.trinterp2(R0, R1, s)'),
+        F('trinterp2_R_nostart', [P('E', (2, 2)), s], lambda E, s: t2.trinterp2(None, E, s), 'base.trinterp2(None, R1, s)'),
     ]
 
 def groups():
